@@ -33,6 +33,8 @@ package edwards25519
 
 //@ globalinv [F:d] inv(d)
 //@ globalinv [F:d2] inv(d2) && cong(lv(d2), 2 * lv(d), P)
+// d != -1 (ground-checked on the real constant; assumed only by the round-trip lemmas, `opt inv=dne`)
+//@ globalinv [O:dne] !cong(lv(d) + 1, 0, P)
 //@ globalinv [F:feOne] isone(feOne)
 //@ globalinv [F:identity] elems(identity) && init(identity) && validc(identity) && cong(lv(identity.x), 0, P) && cong(lv(identity.y), lv(identity.z), P)
 //@ globalinv [F:generator] elems(generator) && init(generator) && validc(generator)
@@ -527,6 +529,7 @@ package edwards25519
 //@   leak none
 //@   mode ring
 //@   casesplit len(x) == 32
+//@   errcases result1
 //@   use validinit(v)
 //@   assigns *v
 //@   ensures [badlen] len(x) != 32 ==> isnil(result0) && !isnil(result1) && unchanged(*v)
@@ -540,8 +543,41 @@ package edwards25519
 // a rejected 32-byte input carries a certificate that y is not on the curve: with u = y^2-1, w = d*y^2+1
 // (w != 0 for every y because -1/d is a non-square, M3) the code has found r with w*r^2 = sqrt(-1)*u, u != 0,
 // and sqrt(-1) is a non-square (M6), so u/w is not a square.
+// completeness of the decoder: a 32-byte input whose y (ghost gy) has some x-coordinate (ghost a) on the curve is
+// accepted.  Needs, besides the certificate below, that sqrt(-1) is a non-square (M6b, from sqrtM1^2 = -1, which is
+// ground-checked, p = 5 mod 8 and Euler's criterion): r^2 = sqrt(-1)*a^2 only for a = 0.
+//@   ghost a, gy
+//@   assumebody [M6b] cong(lv(xx) * lv(xx), lv(sqrtM1) * lv(a) * lv(a), P) ==> cong(lv(a), 0, P)
+//@   ensures [complete] (len(x) == 32 && cong(lv(gy), le(x, 32) % 2^255, P) && cong(lv(a) * lv(a) * (lv(d) * lv(gy) * lv(gy) + 1), lv(gy) * lv(gy) - 1, P)) ==> isnil(result1)
 //@   ensuresbody [reject] (len(x) == 32 && !isnil(result1) && !cong(lv(vv), 0, P)) ==> (!cong(lv(u), 0, P) && cong(lv(vv) * lv(xx) * lv(xx), lv(sqrtM1) * lv(u), P))
 //@   ensuresbody [reject-w] (len(x) == 32 && !isnil(result1)) ==> cong(lv(vv), lv(d) * lv(y) * lv(y) + 1, P) && cong(lv(u), lv(y) * lv(y) - 1, P)
+
+// ---------------------------------------------------------------- round trips (property C05), over the contracts above
+// The two functions exist only under the verif tag (roundtrip_verif.go); they compose the real Bytes and SetBytes.
+//@ func govcEncodeDecode(v, p)
+//@   mode ring
+//@   opt cvneg inv=dne
+//@   atoms cong(lv(v.x) * lv(v.x), lv(old(p.x)) * finv(lv(old(p.z))) * lv(old(p.x)) * finv(lv(old(p.z))), P)
+//@   atoms cong(1 + lv(d) * lv(v.y) * lv(v.y), 0, P)
+//@   requires [wf] wf(p) && init(p)
+//@   use validinit(v)
+//@   instantiate (*Point).SetBytes a = lv(p.x) * finv(lv(p.z)), gy = lv(p.y) * finv(lv(p.z))
+//@   assigns *v
+//@   ensures [accepted] isnil(result1) && result0 == v
+//@   ensures [valid] validc(v) && init(v) && elems(v)
+//@   ensures [samey] cong(lv(v.y) * lv(old(p.z)), lv(old(p.y)) * lv(v.z), P)
+//@   ensures [samex] cong(lv(v.x) * lv(old(p.z)), lv(old(p.x)) * lv(v.z), P)
+
+//@ func govcDecodeEncode(v, x)
+//@   mode ring
+//@   casesplit len(x) == 32
+//@   use validinit(v)
+//@   assigns *v
+//@   ensures [rejected] !isnil(result1) ==> isnil(result0)
+//@   ensures [len] isnil(result1) ==> len(result0) == 32 && fresh(result0)
+//@   ensures [y] isnil(result1) ==> le(result0, 32) % 2^255 == (le(x, 32) % 2^255) % P
+//@   ensures [sign] isnil(result1) ==> (le(result0, 32) / 2^255 == x[31] / 128 || (cong(lv(v.x), 0, P) && le(result0, 32) / 2^255 == 0))
+//@   ensures [samepoint] isnil(result1) ==> le(result0, 32) == affy(v) + 2^255 * (affx(v) % 2)
 
 // ---------------------------------------------------------------- scalar field (fiat-crypto Montgomery code), tier L
 //@ const L = 2^252 + 27742317777372353535851937790883648493
@@ -639,7 +675,6 @@ package edwards25519
 //@   mode bv
 //@   assigns *out1
 //@   ensures [value] ev4(out1) == le(arg1, 32)
-
 
 // ---------------------------------------------------------------- Scalar (property C07, C08)
 // A Scalar s holds ev4(s.s) = n*R mod L for the integer n in [0,L) it stands for (Montgomery form, R = 2^256,
@@ -973,7 +1008,6 @@ package edwards25519
 //@   ensures [valid] gvalid(v)
 //@   ensures [value] pt(v) == gadd(smul(nval(a), pt(A)), smul(nval(b), gbase()))
 
-
 //@ func (*Point).MultByCofactor(v, p) as group
 //@   mode group
 //@   requires [wf] wf(p)
@@ -1214,7 +1248,6 @@ package edwards25519
 //@   requires [consts] cong(lv(z0), 0, P) && cong(lv(o1), 1, P)
 //@   assigns *v
 //@   ensures [id] repA(v, z0, o1)
-
 
 // ---------------------------------------------------------------- Scalar.Invert (property C07): arithmetic in Z/l
 // Tier "Z/l" (ring mode with the prime l): a Scalar is an opaque value sval(s) = ev4(s.s)*RINV mod l.  The `sensures`
